@@ -70,6 +70,11 @@ func runC12(t *testing.T, seed uint64, m *Mask) *Report {
 		if proto == "http" && op.Codec == 't' {
 			op.Codec = 'j'
 		}
+		if fault == "none" && op.Kind != "push" && r.Chance(0.12) {
+			// the handler's result cannot be encoded: the first reply write fails and the framework answers
+			// with a fall-back error reply, which is a reply to this call like any other
+			op.Route = "/std/weird"
+		}
 		// payload classes
 		switch r.Intn(5) {
 		case 0:
@@ -215,6 +220,12 @@ func runC12(t *testing.T, seed uint64, m *Mask) *Report {
 			info := fmt.Sprintf("proto=%s codec=%q pipe=%v data=%dB kind=%s fault=%s %s", proto, op.Codec, op.Pipe, len(op.Data), op.Kind, fault, applied)
 			switch fault {
 			case "none":
+				if op.Route == "/std/weird" {
+					if got, seen := replyPipe[op.Seq]; seen && got != fmt.Sprint(op.Pipe) && !(len(op.Pipe) == 0 && got == "[]") {
+						e.Fail("C12/reply-not-through-callers-pipe", "op %s (%s, fall-back reply after an unencodable result): the reply arrived through pipe %s", op.Tag, info, got)
+					}
+					continue
+				}
 				if !op.OK {
 					e.Fail("C12/pipe-roundtrip-failed", "op %s (%s): %d %q %q", op.Tag, info, op.Code, op.Msg, op.Cause)
 					continue
